@@ -42,11 +42,14 @@ def style_configs():
     out.append(dict({'host': host, 'spied': False, 'deco': 'wraps'}, **extra))
     if host in ('queued', 'ao'):
       out.append(dict({'host': host, 'spied': False, 'deco': 'wraps', 'instrumented': False}, **extra))
+    # stacked decorators: spy_on over the user's decorator, and two user decorators on an un-spied handler
+    out.append(dict({'host': host, 'spied': True, 'deco': 'spy-over-wraps'}, **extra))
+    out.append(dict({'host': host, 'spied': False, 'deco': 'wraps-twice'}, **extra))
   return out
 
 
 def cfg_name(c):
-  return '%s%s%s%s%s%s%s' % (c['host'], '+wraps' if c.get('deco') == 'wraps' else '', '+spied' if c.get('spied') else '',
+  return '%s%s%s%s%s%s%s%s' % (c['host'], '+mixed' if c.get('mixed') is not None else '', ('+' + c['deco']) if c.get('deco') else '', '+spied' if c.get('spied') else '',
                            '' if c.get('instrumented', True) else '+uninstr',
                            '+unnamed' if c.get('named') is False else '',
                            '+livespy' if c.get('live_spy') else '', '+livetrace' if c.get('live_trace') else '')
@@ -70,6 +73,7 @@ class Result:
     self.error_step = None
     self.instrumented_effective = None
     self.queries = []
+    self.query_answer_index = {}     # position in queries -> index of the state whose handler child_state returned
     self.restart_log = self.restart_rest = None
 
 
@@ -77,7 +81,12 @@ def run_config(spec, start, script, cfg, queries=None, clock=None, keep_chart=Fa
   """queries: optional {step_index: [('is_in', i) | ('child_state', i)]}, executed
   after that step (index -1 = after start)."""
   res = Result()
-  run = cg.Run(spec, spied=cfg.get('spied', False), foreign_deco=cfg.get('deco') == 'wraps', **(run_kwargs or {}))
+  mask = None
+  if cfg.get('mixed') is not None:
+    import random as _random
+    r = _random.Random(cfg['mixed'])
+    mask = [r.random() < 0.5 for _ in range(spec['n'])]
+  run = cg.Run(spec, spied=cfg.get('spied', False), foreign_deco=cfg.get('deco') or False, spied_mask=mask, **(run_kwargs or {}))
   host = cfg['host']
   sem = threading.Semaphore(0)
   gate = threading.Lock()     # the post call (enqueue, then POST_* spy marker) returns before the object's step begins, see qrun.run
@@ -104,6 +113,8 @@ def run_config(spec, start, script, cfg, queries=None, clock=None, keep_chart=Fa
             sem.release()
       chart = SyncAO(name='ao_chart' if cfg.get('named', True) else None, instrumented=cfg.get('instrumented', True))
       chart._vt_exc = None
+      if not cfg.get('instrumented', True):
+        chart.instrumented = False     # the constructor of ActiveObject loses the flag (it lands in maxlen)
       ao = chart
     if host in ('queued', 'ao'):
       chart.live_spy = cfg.get('live_spy', False)
@@ -131,6 +142,7 @@ def run_config(spec, start, script, cfg, queries=None, clock=None, keep_chart=Fa
             r = chart.is_in(arg)
           else:
             r = chart.child_state(arg)
+            res.query_answer_index[len(res.queries)] = next((i for i in range(spec['n']) if run.is_handler_of(r, i)), None)
             r = getattr(r, '__name__', r)
           res.queries.append((k, q, 'ok', r))
         except cg.Budget:
